@@ -65,7 +65,8 @@ func (r *chunkReader) Read(p []byte) (int, error) {
 }
 
 type oracleEntry struct {
-	B string `json:"b"` // body (hex)
+	Off int `json:"off"` // body = stream[off:off+len]
+	Len int `json:"len"`
 	U int    `json:"u"` // class of the error object.Unmarshal returns (0 = accepted)
 	S int    `json:"s"` // Put: 0 stored, 1 ignored (expired / already removed), 2+k failed with error class k
 }
@@ -80,7 +81,8 @@ type c46Case struct {
 	DumpErr   bool          `json:"dump_err"`
 	Dump      string        `json:"dump"`
 	Kind      int           `json:"kind"`    // 0 clean, 1 bodies corrupted (framing intact), 2 bad magic, 3 framing damaged
-	Recs      []string      `json:"recs"`    // kind 0/1: record bodies of the stream, in order
+	Recs      [][2]int      `json:"recs"`    // kind 0/1: record bodies of the stream, in order (offset, length)
+	DumpRecs  [][2]int      `json:"dump_recs"` // record bodies of the dump (offset, length), same order as perm
 	Stream    string        `json:"stream"`  // stream given to Restore (hex), empty when same
 	Same      bool          `json:"same"`    // stream is the dump itself
 	Sizes     []int         `json:"sizes"`
@@ -124,18 +126,26 @@ func putClass(err error) int {
 // Unmarshal / Put oracle table (the abstract functions of the Coq model)
 func flatBodies(stream []byte) [][]byte {
 	var res [][]byte
-	if len(stream) < 4 {
-		return nil
+	for _, ol := range flatOffsets(stream) {
+		res = append(res, stream[ol[0]:ol[0]+ol[1]])
 	}
-	s := stream[4:]
-	for len(s) >= 4 {
-		sz := int(binary.LittleEndian.Uint32(s[:4]))
-		s = s[4:]
-		if sz > len(s) {
+	return res
+}
+
+func flatOffsets(stream []byte) [][2]int {
+	res := [][2]int{}
+	if len(stream) < 4 {
+		return res
+	}
+	p := 4
+	for len(stream)-p >= 4 {
+		sz := int(binary.LittleEndian.Uint32(stream[p : p+4]))
+		p += 4
+		if sz > len(stream)-p {
 			break
 		}
-		res = append(res, s[:sz])
-		s = s[sz:]
+		res = append(res, [2]int{p, sz})
+		p += sz
 	}
 	return res
 }
@@ -205,18 +215,18 @@ func payloadLen(r *rng) int {
 	case 1, 2, 3:
 		return 1 + r.intn(40)
 	case 4:
-		return 60 + r.intn(200)
+		return 40 + r.intn(80)
 	default:
 		if thorough() {
 			return 300 + r.intn(1500)
 		}
-		return 100 + r.intn(300)
+		return 100 + r.intn(150)
 	}
 }
 
 func c46One(r *rng, id int, forceKind int) c46Case {
 	c := c46Case{ID: id, WC: r.coin(1, 2), WCB: r.coin(1, 3), Ign: r.coin(1, 2), Eager: r.coin(1, 4)}
-	c.Objs, c.Perm, c.Recs, c.Sizes, c.Oracle, c.Stored = []string{}, []int{}, []string{}, []int{}, []oracleEntry{}, []string{}
+	c.Objs, c.Perm, c.Recs, c.Sizes, c.Oracle, c.Stored = []string{}, []int{}, [][2]int{}, []int{}, []oracleEntry{}, []string{}
 
 	tt := time.Now()
 	lap := func(w string) { if os.Getenv("VERIF_LAP") != "" { println(w, time.Since(tt).Milliseconds()); tt = time.Now() } }
@@ -261,6 +271,7 @@ func c46One(r *rng, id int, forceKind int) c46Case {
 	_ = a.sh.Close()
 	lap("closeA")
 	bodies := flatBodies(dump)
+	c.DumpRecs = flatOffsets(dump)
 	for _, b := range bodies {
 		if i, ok := byBytes[string(b)]; ok {
 			c.Perm = append(c.Perm, i)
@@ -353,9 +364,7 @@ func c46One(r *rng, id int, forceKind int) c46Case {
 		c.Kind = 0
 	}
 	if c.Kind <= 1 {
-		for _, b := range flatBodies(stream) {
-			c.Recs = append(c.Recs, hex.EncodeToString(b))
-		}
+		c.Recs = flatOffsets(stream)
 	}
 	c.Sizes = genSizes(r, len(stream))
 	if c.Sizes == nil {
@@ -367,12 +376,13 @@ func c46One(r *rng, id int, forceKind int) c46Case {
 	defer os.RemoveAll(dirC)
 	sc := mustShard(dirC, envOpts{})
 	seen := map[string]bool{}
-	for _, b := range flatBodies(stream) {
+	for _, ol := range flatOffsets(stream) {
+		b := stream[ol[0] : ol[0]+ol[1]]
 		if seen[string(b)] {
 			continue
 		}
 		seen[string(b)] = true
-		e := oracleEntry{B: hex.EncodeToString(b)}
+		e := oracleEntry{Off: ol[0], Len: ol[1]}
 		obj := new(object.Object)
 		if uerr := obj.Unmarshal(b); uerr == nil {
 			e.S = putClass(sc.sh.Put(obj, nil))
